@@ -117,7 +117,9 @@ CLAIMS = {
              "written only from the format text returns the original label at EVERY voxel and the file is "
              "4-byte aligned; composed from kernel-checked layers (sorted-distinct LUT + index, bit packing "
              "for all six non-zero widths, append-only arena with LUT sharing, block/voxel index arithmetic, "
-             "channel offsets, little-endian words). Tie: the real encoder's bytes equal the model's bytes "
+             "channel offsets, little-endian words); the same at the level of whole arrays in C order; and the "
+             "package's OWN decoder model inverts the encoder (own_decoder_round_trip: decode(encode a) = a "
+             "for every shape, block size, label width and array). Tie: the real encoder's bytes equal the model's bytes "
              "on every sampled chunk (all bit widths, padding, LUT sharing across blocks), the real decoder "
              "equals the model of the package decoder; oracle: Lean's specification decoder on the REAL bytes.",
         note="Trusted: Lean kernel; standard axioms (Mathlib's ring used for index identities); hand-written "
@@ -132,7 +134,10 @@ CLAIMS = {
              "checks, fancy-index IndexError): for EVERY byte string, shape and block size the result is an "
              "array with exactly the requested number of voxels or InvalidFormatError, never another "
              "exception (cseg_decoder_total, incl. the Int-arithmetic lemma that the LUT slice is always "
-             "item-aligned); raw decoder accepts exactly the right length; the JPEG wrapper returns the right "
+             "item-aligned); for EVERY byte string, whenever that decoder returns an array a decoder written "
+             "from the format specification returns the same array (it never mis-decodes), it accepts a block "
+             "whenever the specification's procedure decodes every position of it, and it accepts the "
+             "encoder's output; raw decoder accepts exactly the right length; the JPEG wrapper returns the right "
              "size or the documented error for every behaviour of PIL. All model functions are total "
              "(no hang). Tie: outcome class and decoded arrays of the real decoders vs the models on "
              "thousands of malformed inputs (all truncations, byte flips, targeted header edits) and on "
@@ -148,8 +153,9 @@ CLAIMS = {
              "(grid_test_is_exact), with kernel-checked counterexamples of the pre-fix test; raw "
              "decode∘encode = id for every item size; for EVERY history of writes through a map-like store "
              "and a lossless codec a read returns the last accepted write to that position and off-grid "
-             "writes are rejected (refinement of the I/O layer to key ⇀ array). compressed_segmentation "
-             "round trip is C02, JPEG shape C10. Tie: boundary-grid fuzz of all six coordinates vs the "
+             "writes are rejected (refinement of the I/O layer to key ⇀ array); compressed_segmentation: the "
+             "package's own decoder inverts its encoder for every shape, block size and array (so both "
+             "lossless codecs meet the history theorem's hypothesis). JPEG shape is C10. Tie: boundary-grid fuzz of all six coordinates vs the "
              "model and the grid predicate; write/read histories over the real PrecomputedIO with "
              "FileAccessor (4 layouts), ShardedFileAccessor and a dict accessor, all encodings/types, "
              "big-endian / strided / narrower input arrays, same and fresh handles.",
